@@ -13,7 +13,7 @@ TECHNIQUE = "exhaustive enumeration of (status byte x sense x transport x call p
 RULE = ("depth 1: all 256 status bytes x {SG_IO, iSCSI} x {device.execute, SCSI.execute} x raw-sense {off,on} x (READ(10) x 5 sense buffers + 7 other commands incl. ATA PASS-THROUGH with/without CK_COND), and all 256 "
         "status bytes x both transports x each of the 38 facade methods on every command set offering it x 2 sense buffers; histories: all "
         "sequences up to length L (3 quick, 4 thorough) over {GOOD, CHECK CONDITION, BUSY, RESERVATION CONFLICT, 7Fh} x {TEST UNIT READY, "
-        "READ(10), INQUIRY} on one device per transport, every step judged and every GOOD step's result compared with the target. "
+        "READ(10), INQUIRY} on one device per transport, every step judged and every GOOD step's result compared with the target, once with a fresh facade call per step and once with one command object per kind submitted again at every step (retry loop); each CHECK CONDITION step carries its own distinct sense data; later steps also range over ATA PASS-THROUGH(16) facade calls (GOOD / CHECK CONDITION / transport I/O error), a refused ATA call (no block size) and a transport I/O error during TEST UNIT READY. "
         "states = distinct canonical device/facade snapshots reached, transitions = commands executed in histories. Non-trivial = status "
         "other than GOOD somewhere in the execution.")
 ASSUMPTIONS = [
@@ -46,6 +46,7 @@ def partitions(tier):
         for first in ("tur", "read10", "inquiry"):
             for st in ("GOOD", "CC", "BUSY", "RC", "7F"):
                 parts.append(["hist", tr, first, st])
+                parts.append(["rehist", tr, first, st])
     return parts
 
 
@@ -162,25 +163,57 @@ def run_case(case, obs=None):
             return v
         finally:
             rig.close()
-    if mode == "hist":
+    if mode in ("hist", "rehist"):
         _, tr, steps = case
         rig = harness.Rig(tr, 0x00)
         try:
             rig.target.disk[1] = b"\x42" * 512
             s = rig.facade()
             out = []
+            # rehist: ONE command object per kind, submitted again at every step that names it (the retry loop of a caller)
+            reuse = {k: new_cmd(k, rig.dev) for k in ("tur", "read10", "inquiry")} if mode == "rehist" else None
             kept = []            # every CheckCondition raised in this history, with what its target sent and what it printed then
             for i, (ck, stname) in enumerate(steps):
+                if ck == "atabad":
+                    # a request the facade must refuse before sending (byte_block/t_type need a block size, none given): it raises,
+                    # nothing reaches the target - and nothing of it may linger in the facade for the next call
+                    n0 = len(rig.target.log)
+                    oc = attempt(lambda: s.atapassthrough12(4, 2, 1, 1, 1, 0, 0, 1, 0, 0xEC))
+                    if oc[0] != "exc" or len(rig.target.log) != n0:
+                        out.append(("%s/history/refused_call" % tr, "step %d of %r: outcome %s, %d commands sent" % (i, steps, oc[0], len(rig.target.log) - n0)))
+                    if obs is not None:
+                        obs.append(snapshot(rig.dev, s))
+                    continue
+                if stname == "ERR":
+                    # the binding itself fails (transport I/O error): some exception must reach the caller
+                    rig.target.script.append((OSError(5, "Input/output error"), None))
+                    fn = {"tur": s.testunitready, "ata": lambda: s.atapassthrough16(4, 2, 1, 1, 0, 0, 0, 1, 0, 0xEC, ck_cond=1)}[ck]
+                    oc = attempt(fn)
+                    if oc[0] != "exc":
+                        out.append(("%s/history/transport_error_returns_normally" % tr, "step %d of %r: the binding raised OSError, the call returned normally" % (i, steps)))
+                    del rig.target.script[:]
+                    if obs is not None:
+                        obs.append(snapshot(rig.dev, s))
+                    continue
                 status = HSTAT[stname]
                 # each step answers with its own sense data, so that an error object re-using another error's state is visible
                 triple = (2 + i, 0x20 + i, i)
                 hs = fixed_sense(*triple) if i % 2 == 0 else desc_sense(*triple)
                 SENSES["hist"] = (hs, triple)
                 rig.target.script.append((status, hs))
-                fn = {"tur": s.testunitready, "read10": lambda: s.read10(1, 1), "inquiry": s.inquiry}[ck]
+                fn = {"tur": s.testunitready, "read10": lambda: s.read10(1, 1), "inquiry": s.inquiry,
+                      "ata": lambda: s.atapassthrough16(4, 2, 1, 1, 0, 0, 0, 1, 0, 0xEC, ck_cond=1)}[ck]
+                if reuse is not None and ck != "ata":
+                    def fn(c=reuse[ck]):
+                        if c.datain:
+                            c.datain[:] = bytes(len(c.datain))
+                        s.execute(c)
+                        if ck == "inquiry":
+                            c.unmarshall()
+                        return c
                 oc = attempt(fn)
                 cmd = oc[1] if oc[0] == "ret" else None
-                v = judge(tr, status, "hist", False, oc, cmd, "facade." + {"tur": "testunitready", "read10": "read10", "inquiry": "inquiry"}[ck])
+                v = judge(tr, status, "hist", ck == "ata", oc, cmd, "facade." + {"tur": "testunitready", "read10": "read10", "inquiry": "inquiry", "ata": "atapassthrough16"}[ck])
                 if status == 0x02 and oc[0] == "exc" and type(oc[1]).__name__ == "CheckCondition":
                     kept.append((i, oc[1], triple, str(oc[1])))
                 if status == 0 and oc[0] == "ret":
@@ -188,7 +221,7 @@ def run_case(case, obs=None):
                         v.append(("%s/history/good_result_wrong" % tr, "READ(10) after %r returned wrong data" % (steps[:i],)))
                     if ck == "inquiry" and cmd.result.get("peripheral_device_type") != 0:
                         v.append(("%s/history/good_result_wrong" % tr, "INQUIRY after %r decoded wrongly" % (steps[:i],)))
-                    if cmd.sense is not None or cmd.raw_sense_data is not None:
+                    if reuse is None and ck != "ata" and (cmd.sense is not None or cmd.raw_sense_data is not None):
                         v.append(("%s/history/stale_sense" % tr, "GOOD command carries sense after %r" % (steps[:i],)))
                 out += [(k, "step %d of %r: %s" % (i, steps, w)) for k, w in v]
                 if obs is not None:
@@ -270,13 +303,13 @@ def run_partition(part, tier, seed):
                     acc.traces += 1
                     acc.transitions += 1
     else:
-        _, tr, first, fst = part
+        mode, tr, first, fst = part
         L = bounds(tier)["history_depth"]
-        alpha = [(c, s) for c in ("tur", "read10", "inquiry") for s in HSTAT]
+        alpha = [(c, s) for c in ("tur", "read10", "inquiry") for s in HSTAT] + [("ata", "GOOD"), ("ata", "CC"), ("ata", "ERR"), ("atabad", "-"), ("tur", "ERR")]
         for n in range(1, L + 1):
             for rest in itertools.product(alpha, repeat=n - 1):
                 steps = [(first, fst)] + list(rest)
-                obs = do(["hist", tr, steps], any(s != "GOOD" for _, s in steps))
+                obs = do([mode, tr, steps], any(s != "GOOD" for _, s in steps))
                 acc.transitions += len(steps)
                 acc.traces += 1
                 for o in obs:
